@@ -1,17 +1,17 @@
 #!/bin/bash
 # usage: selftest/harvest.sh <Cxx> <name>   -- takes the mutation from /tmp/seed/<Cxx>, verifies it (tests pass, demo fails with / passes without), stores it under seeded/<name>
 set -u
-ID=$1; NAME=$2; WT=/tmp/seed/$ID; OUT=/verif/seeded/$NAME
+ID=$1; NAME=$2; WT=/tmp/seed/$ID; OUT=/verif/seeded/$NAME; PID=${ID#R2_}
 mkdir -p $OUT
 git -C $WT diff -- src > $OUT/patch.diff
-cp $WT/demo_$ID.py $OUT/demo.py 2>/dev/null || { echo "no demo"; exit 1; }
+cp $WT/demo_$PID.py $OUT/demo.py 2>/dev/null || { echo "no demo"; exit 1; }
 [ -s $OUT/patch.diff ] || { echo "empty patch"; exit 1; }
 # independent verification in a fresh scratch worktree
 V=/tmp/seedverify_$NAME; rm -rf $V; git -C /repo worktree add -q $V HEAD
-cp $OUT/demo.py $V/demo_$ID.py
-sed -i "s#$WT#$V#g" $V/demo_$ID.py
-( cd $V && PYTHONPATH=$V/src /venv/bin/python demo_$ID.py > $OUT/demo_clean.out 2>&1; echo "demo on clean tree rc=$?" )
+cp $OUT/demo.py $V/demo_$PID.py
+sed -i "s#$WT#$V#g" $V/demo_$PID.py
+( cd $V && PYTHONPATH=$V/src /venv/bin/python demo_$PID.py > $OUT/demo_clean.out 2>&1; echo "demo on clean tree rc=$?" )
 git -C $V apply $OUT/patch.diff
 ( cd $V && PYTHONPATH=$V/src /venv/bin/python -m pytest -q -p no:cacheprovider 2>&1 | tail -1 )
-( cd $V && PYTHONPATH=$V/src /venv/bin/python demo_$ID.py > $OUT/demo_mutant.out 2>&1; echo "demo on mutant rc=$?" )
+( cd $V && PYTHONPATH=$V/src /venv/bin/python demo_$PID.py > $OUT/demo_mutant.out 2>&1; echo "demo on mutant rc=$?" )
 git -C /repo worktree remove --force $V
